@@ -382,3 +382,24 @@ def unroll_const_loops(fi):
     fi2._unrolled = fi2
     fi._unrolled = fi2
     return fi2
+
+
+def direct_aliases(fi):
+    """{local: attr} for locals that stand for a self attribute itself: every definition of the local is exactly ``self.<attr>``
+    (the same attribute each time)."""
+    defs = {}
+    for n in walk_no_nested(fi.node):
+        if isinstance(n, ast.Assign):
+            for t in n.targets:
+                for x in ast.walk(t):
+                    if isinstance(x, ast.Name):
+                        defs.setdefault(x.id, []).append(n.value if x is t else None)
+        elif isinstance(n, (ast.AugAssign, ast.For, ast.NamedExpr)):
+            for x in ast.walk(n.target):
+                if isinstance(x, ast.Name):
+                    defs.setdefault(x.id, []).append(None)
+    out = {}
+    for k, vs in defs.items():
+        if all(v is not None and is_self_attr(v) for v in vs) and len({v.attr for v in vs}) == 1 and k not in fi.params:
+            out[k] = vs[0].attr
+    return out
